@@ -140,7 +140,10 @@ def belief(chain, n):
     for j in range(len(chain) - 2, -1, -1):
         bases.append((chain[j]["slots"], resolved(chain[: j + 1])))
     if leaf["collectByMro"]:
-        for has, attrs in bases:
+        # `_collect_base_attrs` reads each base's own `__attrs_attrs__`: a plain class contributes nothing
+        for j, (has, attrs) in zip(range(len(chain) - 2, -1, -1), bases):
+            if not is_attrs(chain[j]):
+                continue
             if any(m == n and not inh and m not in own for m, inh in attrs):
                 return has
         return False
